@@ -770,6 +770,32 @@ func TestVerifWalker(t *testing.T) {
 				} else if d := vwDiff(real, ref); d != "" {
 					fmt.Fprintf(w, "PATH %s %s DIFF %s\n", id, vwPathString(path), d)
 				}
+				// the same through the Translator object the interceptor uses (request direction for requests, response
+				// direction for responses), the message's own top-level namespace holding a name that has no mapping
+				{
+					tr := NewNamespaceNameTranslator(logger, nsMap, nsMap)
+					m2 := vwNew(root.full)
+					vwBuildPath(m2.ProtoReflect(), path, "orig")
+					if fd := m2.ProtoReflect().Descriptor().Fields().ByName("namespace"); fd != nil && fd.Kind() == protoreflect.StringKind && !fd.IsList() &&
+						!(len(path) == 1 && path[0].fd == fd) {
+						m2.ProtoReflect().Set(fd, protoreflect.ValueOfString("unmapped-ns"))
+					}
+					ref2 := proto.Clone(m2)
+					var terr error
+					if root.isReq {
+						_, terr = tr.TranslateRequest(m2)
+					} else {
+						_, terr = tr.TranslateResponse(m2)
+					}
+					r2 := &vwRef{ns: nsMap}
+					r2.walk(ref2.ProtoReflect())
+					stats["translator_paths"]++
+					if terr != nil {
+						fmt.Fprintf(w, "PATH %s %s VIA-TRANSLATOR ERROR %v\n", id, vwPathString(path), terr)
+					} else if d := vwDiff(m2, ref2); d != "" {
+						fmt.Fprintf(w, "PATH %s %s VIA-TRANSLATOR (top-level namespace unmapped) DIFF %s\n", id, vwPathString(path), d)
+					}
+				}
 				if root.isReq {
 					bad := vwNew(root.full)
 					vwBuildPath(bad.ProtoReflect(), path, "forbidden-ns")
@@ -779,10 +805,55 @@ func TestVerifWalker(t *testing.T) {
 					if aerr == nil && got {
 						fmt.Fprintf(w, "PATHACL %s %s forbidden name admitted\n", id, vwPathString(path))
 					}
+					// the same request through the real interceptor, once as it is and once next to a history blob the proxy
+					// cannot decode (in every top-level blob field of the request type): it must not reach the handler
+					for _, damage := range []bool{false, true} {
+						b2 := proto.Clone(bad)
+						if damage {
+							n := 0
+							for _, p2 := range paths {
+								if len(p2) > 1 && p2[0].blob && !(p2[0].fd == path[0].fd && !p2[0].fd.IsList()) {
+									garbage := &commonpb.DataBlob{EncodingType: enumspb.ENCODING_TYPE_PROTO3, Data: []byte("\xff\xfe\x00 not a history batch")}
+									fd := p2[0].fd
+									if fd.IsList() {
+										l := b2.ProtoReflect().Mutable(fd).List()
+										if l.Len() == 0 || string(l.Get(l.Len()-1).Message().Interface().(*commonpb.DataBlob).Data) != string(garbage.Data) {
+											// put the damaged batch FIRST: the walk meets it before the forbidden name
+											old := make([]protoreflect.Value, l.Len())
+											for i := range old {
+												old[i] = l.Get(i)
+											}
+											l.Truncate(0)
+											l.Append(protoreflect.ValueOfMessage(garbage.ProtoReflect()))
+											for _, v := range old {
+												l.Append(v)
+											}
+											n++
+										}
+									} else if !b2.ProtoReflect().Has(fd) {
+										b2.ProtoReflect().Set(fd, protoreflect.ValueOfMessage(garbage.ProtoReflect()))
+										n++
+									}
+								}
+							}
+							if n == 0 {
+								continue
+							}
+							stats["acl_paths_damaged_blob"]++
+						}
+						ic := NewAccessControlInterceptor(logger, nil, []string{"orig"})
+						reached := false
+						_, ierr := ic.Intercept(context.Background(), b2, &grpc.UnaryServerInfo{FullMethod: root.method},
+							func(ctx context.Context, req any) (any, error) { reached = true; return nil, nil })
+						if reached || ierr == nil {
+							fmt.Fprintf(w, "PATHACL %s %s forbidden name reached the handler through the interceptor (undecodable blob beside it: %v)\n", id, vwPathString(path), damage)
+						}
+					}
 				}
 			}
 		}
 	}
+	pNS, pSA, primed := map[string]Translator{}, map[string]Translator{}, map[string]bool{}
 	for ri, root := range roots {
 		for c := 0; c < cases; c++ {
 			id := fmt.Sprintf("%s#%d", root.full, c)
@@ -820,6 +891,32 @@ func TestVerifWalker(t *testing.T) {
 						}
 					}
 				}
+				{
+					tr := pNS[mp.name]
+					if tr == nil {
+						tr = NewNamespaceNameTranslator(logger, mp.ns, mp.ns)
+						pNS[mp.name] = tr
+					}
+					via := func(t Translator, m proto.Message) error {
+						if root.isReq {
+							_, e := t.TranslateRequest(m)
+							return e
+						}
+						_, e := t.TranslateResponse(m)
+						return e
+					}
+					if !primed["ns|"+root.full+"|"+mp.name] {
+						primed["ns|"+root.full+"|"+mp.name] = true
+						_ = via(tr, vwNew(root.full))
+					}
+					real2 := proto.Clone(msg)
+					if err2 := via(tr, real2); err2 == nil && err == nil {
+						stats["ns_sequence"]++
+						if d := vwDiff(real2, ref); d != "" {
+							fmt.Fprintf(w, "NS %s %s SEQUENCE (long-lived translator, after an empty message of the type) DIFF %s\n", id, mp.name, d)
+						}
+					}
+				}
 				if err == nil && safe {
 					back := proto.Clone(real)
 					if _, err2 := visitNamespace(logger, back, createStringMatcher(vwInverse(mp.ns))); err2 != nil {
@@ -847,6 +944,32 @@ func TestVerifWalker(t *testing.T) {
 				}
 				if r.matched {
 					stats["sa_matched"]++
+				}
+				// the same through ONE long-lived translator object per mapping (as the proxy uses it), which has already
+				// seen a message of this type with nothing to rename: what it did before must not matter
+				tr := pSA[mp.name]
+				if tr == nil {
+					tr = NewSearchAttributeTranslator(logger, map[string]map[string]string{"ns-id": mp.sa}, map[string]map[string]string{"ns-id": mp.sa})
+					pSA[mp.name] = tr
+				}
+				via := func(t Translator, m proto.Message) error {
+					if root.isReq {
+						_, e := t.TranslateRequest(m)
+						return e
+					}
+					_, e := t.TranslateResponse(m)
+					return e
+				}
+				if !primed["sa|"+root.full+"|"+mp.name] {
+					primed["sa|"+root.full+"|"+mp.name] = true
+					_ = via(tr, vwNew(root.full))
+				}
+				real2 := proto.Clone(msg)
+				if err2 := via(tr, real2); err2 == nil && err == nil && !r.collision {
+					stats["sa_sequence"]++
+					if d := vwDiff(real2, ref); d != "" {
+						fmt.Fprintf(w, "SA %s %s SEQUENCE (long-lived translator, after an empty message of the type) DIFF %s\n", id, mp.name, d)
+					}
 				}
 			}
 			if (mode == "icpt") && root.isReq && !strings.Contains(root.method, "SearchAttributes") {
